@@ -565,6 +565,15 @@ def n3Verify (p : Policy) (memoCap : Nat) (nodata : Bool) (ring : List String) (
   | (sh', memo', .ok) => (sh', memo', if (n3Plan nodata ring (n3Suffixes base labels)).2 then .secure else .bogus)
   | (sh', memo', .limit k lim) => (sh', memo', .work k lim)
 
+/-- `prepareNSEC3Set` in front of the proof: records advertising more than `maxIter`
+iterations (`maxNSEC3Iterations`) are dropped before any work accounting, so a ring above the
+ceiling is an empty ring — `ErrNSECMissingCoverage`, no hash requested. (All records of the
+fixture ring advertise the same count; a mixed ring is refused as a whole either way.) -/
+def n3VerifyIter (p : Policy) (memoCap maxIter iters : Nat) (nodata : Bool) (ring : List String) (base : String)
+    (labels : List String) (sh : Shared) (memo : N3Memo) : Shared × N3Memo × N3Out :=
+  if maxIter < iters then (sh, memo, .bogus)
+  else n3Verify p memoCap nodata ring base labels sh memo
+
 /-! ### the cache's alias chase and the request deadline -/
 
 /-- what the chase loop of `cache.additionalAnswer` (all nesting levels of one
